@@ -190,19 +190,6 @@ def project_settings(settings, tz=None):
     return sg
 
 
-def finalize_probe_event(rec):
-    """Fill tzoff once the naive result date is known (pytz offsets depend on the date)."""
-    sg = rec.get("sg")
-    if not sg:
-        return rec
-    z = sg.pop("_tz", None)
-    off = 0
-    if z is not None and isinstance(rec.get("out"), list) and rec["out"]:
-        pass
-    sg["tzoff"] = off
-    return rec
-
-
 # --------------------------------------------------------------------------- API calls
 def call_parse(case):
     """case: {s, kw: {languages, locales, region, date_formats}, settings, probe: bool, api: parse|ddp}
@@ -215,6 +202,7 @@ def call_parse(case):
     kw = dict(case.get("kw") or {})
     st = decode_settings(case.get("settings"))
     res = {"out": [], "off": "naive", "period": "", "locale": "", "exc": "", "mro": []}
+    res["clock0"] = dt_to_list(_dt.datetime.now())
     try:
         if case.get("api", "ddp") == "parse":
             d = dateparser.parse(case["s"], settings=st, **kw)
@@ -234,6 +222,7 @@ def call_parse(case):
             raise
         res["exc"], res["mro"] = exc_name(e)
         res["msg"] = str(e)[:200]
+    res["clock1"] = dt_to_list(_dt.datetime.now())
     evs = []
     for rec in _state.events:
         sg = rec.get("sg")
